@@ -13,7 +13,7 @@ import (
 )
 
 func c05Weights() hWeights {
-	return hWeights{deliver: 34, ack: 28, save: 10, savefail: 7, savebegin: 11, saveend: 10, savequeue: 6, failover: 3, end: 3, transientOnly: true,
+	return hWeights{deliver: 34, ack: 28, save: 10, savefail: 7, savebegin: 11, saveend: 10, savequeue: 6, failover: 3, end: 3, rebalance: 3, transientOnly: true,
 		absorbed: 25, maxVb: scale(5, 12), minOps: 1, maxOps: scale(60, 200)}
 }
 
